@@ -24,8 +24,15 @@ func VerifC09MainExit() {
 	vf.Reach("end")
 }
 
-func verifDoc(symbol string) string {
-	return "- chord:\n    degree: \"5\"\n    name: \"" + symbol + "\"\n    base: \"3\"\n  values:\n    - \"1\"\n    - \"1/2\"\n  bpm: 90\n  meta:\n    lic: la\n- values:\n    - \"2\"\n- chord:\n    degree: b3\n    name: \"\"\n  values:\n    - \"3/4\"\n  key: G\n  velocity: ff\n"
+func verifDoc(symbol string) string { return verifDocBase(symbol, "3") }
+
+// verifDocBase: base "" means no bass is written.
+func verifDocBase(symbol, base string) string {
+	b := "    base: \"" + base + "\"\n"
+	if base == "" {
+		b = ""
+	}
+	return "- chord:\n    degree: \"5\"\n    name: \"" + symbol + "\"\n" + b + "  values:\n    - \"1\"\n    - \"1/2\"\n  bpm: 90\n  meta:\n    lic: la\n- values:\n    - \"2\"\n- chord:\n    degree: b3\n    name: \"\"\n  values:\n    - \"3/4\"\n  key: G\n  velocity: ff\n"
 }
 
 func verifReset(paths ...string) {
@@ -102,7 +109,8 @@ func VerifC10WriteConvPipe() {
 	verifReset(in, out)
 	defer verifReset(in, out)
 	symbol := []string{"m7", "", "sus4", "MinorTriad", "dim7"}[vf.NondetIntRange("symbol", 0, 4)]
-	os.WriteFile(in, []byte(verifDoc(symbol)), 0o644)
+	base := []string{"3", "", "#1", "bb1", "b7", "#11", "1", "8"}[vf.NondetIntRange("base", 0, 7)]
+	os.WriteFile(in, []byte(verifDocBase(symbol, base)), 0o644)
 	vf.Assert("flags-parse", writeCmdConv.ParseFlags([]string{"--output", out, "--command", "cmt"}) == nil)
 	vf.Assert("conv-succeeds", writeCmdConv.RunE(writeCmdConv, []string{in}) == nil)
 	vf.Assert("flags-parse", writeCmdParse.ParseFlags(nil) == nil)
